@@ -187,6 +187,34 @@ def desugar_node(fnode):
     for loop in [x for x in ast.walk(fnode) if isinstance(x, ast.For)]:
         if _rewrite(loop, fnode, fresh):
             n += 1
+    # map(f, A, B) over sample arrays (possibly inside list(...)): the comprehension [f(A[i], B[i]) for i in range(len(A))]
+    class _Map(ast.NodeTransformer):
+        def visit_Call(self, node):
+            self.generic_visit(node)
+            inner = node
+            if _call_name(node) == "list" and len(node.args) == 1 and not node.keywords and isinstance(node.args[0], ast.ListComp) and getattr(node.args[0], "_from_map", False):
+                return node.args[0]           # list([...]) around the comprehension a map() was turned into
+            if _call_name(inner) == "map" and len(inner.args) >= 2 and not inner.keywords and isinstance(inner.args[0], (ast.Name, ast.Attribute)):
+                arrs = [_array(a) for a in inner.args[1:]]
+                if all(a is not None for a in arrs):
+                    idx = fresh()
+                    args = []
+                    for base, s_ in arrs:
+                        sub = ast.Name(idx, ast.Load()) if s_ == 0 else ast.BinOp(ast.Name(idx, ast.Load()), ast.Add(), ast.Constant(s_))
+                        args.append(ast.Subscript(copy.deepcopy(base), sub, ast.Load()))
+                    b0, s0 = arrs[0]
+                    stop = ast.Call(ast.Name("len", ast.Load()), [copy.deepcopy(b0)], [])
+                    if s0:
+                        stop = ast.BinOp(stop, ast.Sub(), ast.Constant(s0))
+                    comp = ast.ListComp(elt=ast.Call(copy.deepcopy(inner.args[0]), args, []),
+                                        generators=[ast.comprehension(target=ast.Name(idx, ast.Store()), iter=ast.Call(ast.Name("range", ast.Load()), [stop], []), ifs=[], is_async=0)])
+                    counter[1] += 1
+                    comp._from_map = True
+                    return ast.copy_location(comp, node)
+            return node
+    counter.append(0)
+    _Map().visit(fnode)
+    n += counter[1]
     for comp in [x for x in ast.walk(fnode) if isinstance(x, (ast.ListComp, ast.GeneratorExp)) and len(x.generators) == 1 and not x.generators[0].ifs
                  and not x.generators[0].is_async]:
         cl = _CompLoop(comp)
@@ -225,6 +253,7 @@ def batch(self):
         use(x)
     for x in rows():
         use(x)
+    R = np.array(list(map(self.estimate, self.acc, self.mag)))
     return np.array([self.estimate(a, m) for a, m in zip(self.acc, self.mag)])
 '''
 
@@ -235,6 +264,7 @@ def self_test():
     txt = ast.unparse(node)
     want = ["for t in range(1, len(self.gyr)):", "Q[t] = self.update(Q[t - 1], self.gyr[t], self.acc[t])", "for t in range(len(self.gyr)):",
             "Q[t] = self.update(Q[t - 1], self.gyr[t])", "for label, m in zip(['R1', 'R2'], [R1, R2]):", "for _row1 in range(len(self.gyr)):", "use(self.gyr[_row1])",
-            "for x in rows():", "[self.estimate(self.acc[_row2], self.mag[_row2]) for _row2 in range(len(self.acc))]"]
+            "for x in rows():", "[self.estimate(self.acc[_row3], self.mag[_row3]) for _row3 in range(len(self.acc))]",
+            "R = np.array([self.estimate(self.acc[_row2], self.mag[_row2]) for _row2 in range(len(self.acc))])"]
     missing = [w for w in want if w not in txt]
-    return n == 4 and not missing, "rewrote %d loops; missing %s" % (n, missing)
+    return n == 5 and not missing, "rewrote %d loops; missing %s" % (n, missing)
